@@ -106,6 +106,35 @@ Theorem C01_fragment_correct :
 Proof. exact compile_correct. Qed.
 Print Assumptions C01_fragment_correct.
 
+(* Vm::eval (compile_runnable, put_lambda of the body and of the entry lambda, then the run
+   loop through PUSH Argc 0 / MOV / CALL / ENTER / code of e / RET / HALT) on a fragment
+   expression whose reference value is r: for every sufficient fuel the evaluation is the
+   HALT exit [halt_result m] of a machine m whose %acc represents r, whose globals agree
+   with rho', which extends s and has the sp, bp, ep and output log of s.  The macro
+   expander must leave the form alone (explicit premise; it does whenever no head symbol of
+   the form is bound to a macro). *)
+Theorem C01_eval_fragment :
+  forall (ob : N -> M vcell) (bsem : N -> list rval -> option rval),
+  (forall b, builtin_ok ob bsem b) ->
+  forall e rho r rho' s,
+  wf_expr e -> ref_eval bsem rho e r rho' -> minv s -> genv_rel rho s ->
+  transform_expr TRANSFORM_FUEL s (cell_of e) = Ok (cell_of e) ->
+  exists n m, (forall fuel, (n <= fuel)%nat -> eval ob fuel (cell_of e) s = halt_result m) /\
+    vrep (acc m) r (hp m) (st m) /\ genv_rel rho' m /\ minv m /\ cext s m /\
+    sp m = sp s /\ bp m = bp s /\ ep m = ep s /\ out_log m = out_log s.
+Proof. exact eval_fragment. Qed.
+Print Assumptions C01_eval_fragment.
+
+(* ... and the HALT exit converts %acc to the reference value (for a builtin: its
+   #<procedure> datum) and wipes the stack, provided the fuel of the model's get_as_cell
+   ([cell_fuel] = heap size + 1) covers the depth k of the value.  That the heap size
+   always covers it (values are acyclic) is NOT proved. *)
+Theorem C01_halt_result_done : forall m r, vrep (acc m) r (hp m) (st m) ->
+  exists k, (k <= cell_fuel m)%nat ->
+    halt_result m = ROk (Done (rcell r)) (with_stack m tempty (sp m)).
+Proof. exact halt_result_done. Qed.
+Print Assumptions C01_halt_result_done.
+
 (* n instructions that neither halt nor fail are n iterations of the run loop *)
 Theorem C01_steps_run_loop : forall ob n m m' f cyc, steps ob n m = Some m' ->
   run_loop ob (n + f) cyc None m = run_loop ob f 0 None m'.
@@ -129,6 +158,15 @@ Example C01_fragment_example :
   wf_expr ex_e /\ minv (vm_empty 8192) /\ genv_rel rho_empty (vm_empty 8192) /\
   ref_eval bsem_not rho_empty ex_e (RDatum ex_datum) (upd rho_empty (S_ "x") (RDatum ex_datum)).
 Proof. exact ex_hypotheses. Qed.
+(* the model evaluates that form on the empty machine to (#t), as C01_eval_fragment and
+   C01_halt_result_done predict (the premise on transform_expr holds by computation) *)
+Example C01_fragment_example_run :
+  transform_expr TRANSFORM_FUEL (vm_empty 8192) (cell_of ex_e) = Ok (cell_of ex_e) /\
+  match eval other_builtin 100 (cell_of ex_e) (vm_empty 8192) with
+  | ROk (Done c) s' => c = ex_datum /\ sp s' = 0 /\ bp s' = 0 /\ ep s' = USIZE_MAX
+  | _ => False
+  end.
+Proof. vm_compute. repeat split. Qed.
 (* (not (not '#f)) has the reference value #f wherever `not` is bound to the builtin *)
 Example C01_fragment_example_app : forall rho, rho (S_ "not") = Some (RBuiltin B_NOT) ->
   wf_expr ex_app /\ ref_eval bsem_not rho ex_app (RDatum (CBool false)) rho.
